@@ -86,11 +86,8 @@ def fromLspConfig (e : DirsEnv) (cwd : Path) (c : PathCfg) : Option Paths :=
       | some .other => none
       | some (.str s) => some { base with fileDir := resolvePath e.home cwd s }
 
-/-- lexical `..` resolution (what the kernel does when no symlink is involved): used only to compare
-with traced system calls -/
-def normDots : Path → Path → Path
-  | acc, [] => acc.reverse
-  | acc, c :: cs => if c = ['.', '.'] then normDots (acc.drop 1) cs else normDots (c :: acc) cs
+/- `normDots` (lexical `..` resolution, used to compare with traced system calls) lives in
+`Model/Effects.lean` since w24 (`dirsCreated` needs it); same definition, same namespace. -/
 
 end Harper.Effects
 
@@ -107,12 +104,32 @@ def ConfiguredDir (e : DirsEnv) (cwd : Path) (c : PathCfg) (d : Path) : Prop :=
   d = (defaultPaths e).fileDir ∨
   ∃ s, (c.fileDictPath = some (.str s) ∨ c.statsPath = some (.str s)) ∧ d = resolvePath e.home cwd s
 
+/-- one NORMAL path component (`std::path::Component::Normal`): not empty, no `/`, neither `.`
+nor `..` — the only kind of name under which something can be placed directly inside a directory.
+This is what `file_dict_name` yields for every document path but the root
+(`fileDictName_single_component`, `fileDictPath_inside`). -/
+def NormalName (n : List Char) : Prop := n ≠ [] ∧ '/' ∉ n ∧ n ≠ ['.'] ∧ n ≠ ['.', '.']
+
 /-- where a handler may write, in terms of the RESOLVED configured values: a configured file or the
 directory containing it; the configured dictionary directory, its parent, or a direct child of it
-whose name is one path component other than `..` -/
+whose name is ONE NORMAL path component (w24: the empty name and `.` are excluded, as `..` was — the
+old predicate let `d ++ [[]]` and `d ++ [['.']]` through, which no code path produces) -/
 def AllowedWrite (e : DirsEnv) (cwd : Path) (c : PathCfg) (p : Path) : Prop :=
   (∃ q, ConfiguredFile e cwd c q ∧ (p = q ∨ p = parent q)) ∨
   (∃ d, ConfiguredDir e cwd c d ∧
-    (p = d ∨ p = parent d ∨ ∃ n, '/' ∉ n ∧ n ≠ ['.', '.'] ∧ p = d ++ [n]))
+    (p = d ∨ p = parent d ∨ ∃ n, NormalName n ∧ p = d ++ [n]))
+
+/-- a directory the server makes sure exists (`create_dir_all`): the one containing a configured
+file, or the configured dictionary directory. (`parent d` for a configured DIRECTORY `d` — made
+only when the document is the root path, `file_dict_name = ""` — is an ancestor of `d`.) -/
+def AllowedRoot (e : DirsEnv) (cwd : Path) (c : PathCfg) (t : Path) : Prop :=
+  (∃ q, ConfiguredFile e cwd c q ∧ t = parent q) ∨ ConfiguredDir e cwd c t
+
+/-- what a handler may CREATE: an allowed write, or — the honest part — a non-root ANCESTOR of an
+allowed root. `create_dir_all` makes every missing directory on the way down to the configured one,
+and those lie OUTSIDE the configured directory (above it): with `userDictPath = /a/b/d.txt` on a
+machine without `/a`, the server creates `/a`. -/
+def AllowedCreate (e : DirsEnv) (cwd : Path) (c : PathCfg) (p : Path) : Prop :=
+  AllowedWrite e cwd c p ∨ (p ≠ [] ∧ ∃ t, AllowedRoot e cwd c t ∧ p <+: t)
 
 end Harper.Effects
